@@ -142,9 +142,9 @@ def known_function(name):
         return name in _KNOWN
 
 
-def _compile_unit(name, src, flags, cwd, mode):
+def _compile_unit(name, src, flags, cwd, mode, force_inline=()):
     sd = scratch()
-    tag = name.replace("/", "_") + "." + mode
+    tag = name.replace("/", "_") + "." + mode + ("".join("+" + f for f in force_inline))
     bc = os.path.join(sd, tag + ".bc")
     js = os.path.join(sd, tag + ".json")
     if os.path.exists(js):
@@ -155,6 +155,8 @@ def _compile_unit(name, src, flags, cwd, mode):
     if r.returncode != 0:
         raise AnalysisBroken("clang-14 failed on %s: %s" % (src, r.stderr[-3000:]))
     args = [LLVM2FACTS, bc, js, "--inline=" + mode, "--unit=" + name]
+    if force_inline:
+        args.append("--force-inline=" + ",".join(force_inline))
     if os.path.exists(VOCAB):
         args.append("--known=" + VOCAB)
         if os.path.exists(SIGS):
@@ -168,7 +170,7 @@ def _compile_unit(name, src, flags, cwd, mode):
     return js
 
 
-def facts_for(unit_names, mode="leaves", repo=None, srcdir=None):
+def facts_for(unit_names, mode="leaves", repo=None, srcdir=None, force_inline=()):
     """Compile the named units (in parallel) and return {unit: path to facts json}."""
     ensure_tool()
     units = compdb(repo)
@@ -180,7 +182,7 @@ def facts_for(unit_names, mode="leaves", repo=None, srcdir=None):
     if missing:
         raise AnalysisBroken("units not in the compile database: %s" % missing)
     with ThreadPoolExecutor(max_workers=min(16, len(unit_names))) as ex:
-        futs = {u: ex.submit(_compile_unit, u, units[u][0], units[u][1], units[u][2], mode) for u in unit_names}
+        futs = {u: ex.submit(_compile_unit, u, units[u][0], units[u][1], units[u][2], mode, tuple(force_inline)) for u in unit_names}
         return {u: f.result() for u, f in futs.items()}
 
 
